@@ -249,7 +249,9 @@ class LambdaOp(Op):
             # it must run (and be charged) under the evaluation in progress, not the one that created it
             cur_state = active_state(default=state)
 
-            with cur_state.names.make_scope({
+            # lambdas called by the body have to see the same evaluation, also when the host runs this one
+            # where no evaluation is marked active (another thread, or after eval has returned)
+            with cur_state.activate(), cur_state.names.make_scope({
                 k.name: v for k, v in zip(self.args, args)
             }):
                 return self.expr.eval(cur_state)
